@@ -400,13 +400,18 @@ func checkLoopProgress(c *core.Ctx, p *load.Prog, rule string, files ...string) 
 								}
 							}
 						case *ast.AssignStmt:
-							for _, l := range x.Lhs {
+							for li, l := range x.Lhs {
 								if id, ok := l.(*ast.Ident); ok && info.ObjectOf(id) == v {
 									if x.Tok == token.ADD_ASSIGN {
 										if tv := info.Types[x.Rhs[0]]; tv.Value != nil && tv.Value.String() != "0" && !strings.HasPrefix(tv.Value.String(), "-") {
 											w++
 											continue
 										}
+									}
+									// v = F(…v…) where F returns an index that is never below
+									// the one it was given: the counter does not go back
+									if len(x.Rhs) == 1 && e.nonDecreasingCall(x.Rhs[0], li, v) {
+										continue
 									}
 									assignedElsewhere = true
 								}
@@ -470,4 +475,169 @@ func boundedCounter(info *types.Info, loop *ast.ForStmt) types.Object {
 		return nil
 	}
 	return o
+}
+
+
+// nonDecreasingCall: e is a call F(…) whose result number ri is, on every
+// return that does not report an error, at least the value of the argument
+// that carries the counter v (v itself or v plus a non-negative constant).
+func (e *progressEngine) nonDecreasingCall(expr ast.Expr, ri int, v types.Object) bool {
+	call, ok := ast.Unparen(expr).(*ast.CallExpr)
+	if !ok {
+		return false
+	}
+	callee := load.Callee(e.info, call)
+	if callee == nil || callee.Pkg() != e.pkg.Types {
+		return false
+	}
+	for ai, a := range call.Args {
+		if e.atLeast(a, v, nil, 0) && e.resultAtLeastParam(callee, ri, ai, 0) {
+			return true
+		}
+	}
+	return false
+}
+
+// atLeast: expression x is >= the variable v (or, inside a callee, >= its
+// parameter p): v itself, x' + c with c >= 0 and x' atLeast, or a local with a
+// single definition that is.
+func (e *progressEngine) atLeast(x ast.Expr, v types.Object, fd *ast.FuncDecl, depth int) bool {
+	if depth > 4 {
+		return false
+	}
+	x = ast.Unparen(x)
+	switch y := x.(type) {
+	case *ast.Ident:
+		o := e.info.ObjectOf(y)
+		if o == v {
+			return fd == nil || e.onlyIncremented(fd, v)
+		}
+		if fd == nil {
+			return false
+		}
+		// local with exactly one definition
+		var def ast.Expr
+		defIdx, defs := 0, 0
+		var defStmt *ast.AssignStmt
+		ast.Inspect(fd.Body, func(n ast.Node) bool {
+			if as, ok := n.(*ast.AssignStmt); ok {
+				for i, l := range as.Lhs {
+					if id, ok := l.(*ast.Ident); ok && e.info.ObjectOf(id) == o {
+						defs++
+						defStmt, defIdx = as, i
+						if len(as.Lhs) == len(as.Rhs) {
+							def = as.Rhs[i]
+						}
+					}
+				}
+			}
+			return true
+		})
+		if defs != 1 || !e.onlyIncremented(fd, o) {
+			return false
+		}
+		if def != nil {
+			return e.atLeast(def, v, fd, depth+1)
+		}
+		// a, b, c := G(…): result defIdx of a call
+		if defStmt != nil && len(defStmt.Rhs) == 1 {
+			if call, ok := ast.Unparen(defStmt.Rhs[0]).(*ast.CallExpr); ok {
+				if callee := load.Callee(e.info, call); callee != nil && callee.Pkg() == e.pkg.Types {
+					for ai, a := range call.Args {
+						if e.atLeast(a, v, fd, depth+1) && e.resultAtLeastParam(callee, defIdx, ai, depth+1) {
+							return true
+						}
+					}
+				}
+			}
+		}
+		return false
+	case *ast.BinaryExpr:
+		if y.Op == token.ADD {
+			if c, ok := constInt(e.info, y.Y); ok && c >= 0 {
+				return e.atLeast(y.X, v, fd, depth+1)
+			}
+			if c, ok := constInt(e.info, y.X); ok && c >= 0 {
+				return e.atLeast(y.Y, v, fd, depth+1)
+			}
+		}
+	}
+	return false
+}
+
+// onlyIncremented: inside fd the variable is never assigned other than by its
+// definition, ++ or += positive constant.
+func (e *progressEngine) onlyIncremented(fd *ast.FuncDecl, o types.Object) bool {
+	ok := true
+	defs := 0
+	ast.Inspect(fd.Body, func(n ast.Node) bool {
+		switch x := n.(type) {
+		case *ast.IncDecStmt:
+			if id, is := x.X.(*ast.Ident); is && e.info.ObjectOf(id) == o && x.Tok != token.INC {
+				ok = false
+			}
+		case *ast.AssignStmt:
+			for _, l := range x.Lhs {
+				if id, is := l.(*ast.Ident); is && e.info.ObjectOf(id) == o {
+					switch x.Tok {
+					case token.DEFINE:
+						defs++
+					case token.ADD_ASSIGN:
+						if c, isC := constInt(e.info, x.Rhs[0]); !isC || c < 0 {
+							ok = false
+						}
+					default:
+						ok = false
+					}
+				}
+			}
+		}
+		return true
+	})
+	return ok && defs <= 1
+}
+
+// resultAtLeastParam: every return of fn that does not report an error yields,
+// as result ri, a value >= the parameter number pi.
+func (e *progressEngine) resultAtLeastParam(fn *types.Func, ri, pi, depth int) bool {
+	if depth > 4 {
+		return false
+	}
+	fd := e.p.Decl(fn)
+	sig, _ := fn.Type().(*types.Signature)
+	if fd == nil || fd.Body == nil || sig == nil || pi >= sig.Params().Len() || ri >= sig.Results().Len() {
+		return false
+	}
+	param := types.Object(sig.Params().At(pi))
+	errLast := sig.Results().Len() > 0 && isErrorType(sig.Results().At(sig.Results().Len()-1).Type())
+	ok, n := true, 0
+	ast.Inspect(fd.Body, func(nd ast.Node) bool {
+		if _, isLit := nd.(*ast.FuncLit); isLit {
+			return false
+		}
+		r, isR := nd.(*ast.ReturnStmt)
+		if !isR {
+			return true
+		}
+		if len(r.Results) != sig.Results().Len() {
+			ok = false // naked or forwarding return: not analysed
+			return true
+		}
+		if errLast && wire.Canon(r.Results[len(r.Results)-1]) != "nil" {
+			// an error return: the caller leaves its loop on it. `return x, i, err`
+			// that may forward a nil err is still analysed, unless the index it
+			// yields is a constant (the zero value that accompanies an error)
+			_, isId := ast.Unparen(r.Results[len(r.Results)-1]).(*ast.Ident)
+			_, isConst := constInt(e.info, r.Results[ri])
+			if !isId || isConst {
+				return true
+			}
+		}
+		n++
+		if !e.atLeast(r.Results[ri], param, fd, depth+1) {
+			ok = false
+		}
+		return true
+	})
+	return ok && n > 0
 }
